@@ -29,4 +29,27 @@ def kbMethods : List Method := [
   { name := "clone", acqs := [{ lock := 0, mode := .read, toEnd := true }], earlyRelease := false, composite := false }
 ]
 
+/-- per method (rows only for the methods whose body the write-footprint reader understood completely): the ranks
+of the components that the method WRITES through a guard (assignment / `+=` through `*guard`, a `&mut self` method of
+the protected value such as push / insert / remove / clear / sort_by_key / get_mut, a `&mut` borrow) -/
+def kbWrites : List (String × List Nat) := [
+  ("new", []),
+  ("name", []),
+  ("version", []),
+  ("add_rule", [0, 1, 2]),
+  ("remove_rule", [0, 1, 2]),
+  ("get_rule", []),
+  ("get_rules", []),
+  ("get_rules_by_salience", []),
+  ("get_rule_by_index", []),
+  ("get_rule_names", []),
+  ("rule_count", []),
+  ("set_rule_enabled", [0, 2]),
+  ("clear", [0, 1, 2]),
+  ("get_rules_snapshot", []),
+  ("get_statistics", []),
+  ("export_to_grl", []),
+  ("clone", [])
+]
+
 end C15.Generated
